@@ -133,15 +133,29 @@ def model_entry(cont, entry, val, prior_key):
         cont.insert(prior_key, v)
 
 
+SITUATIONS = ["plain", "buf", "new", "newbuf"]
+
+
 def run_case(case):
-    cname, entry, target, want, prior, val = case
+    """``situ`` (7th element, default 'plain'): 'buf' = the value is stored inside the object's
+    buffered context (buffered classes); 'new' = the resource does not exist yet and the storing
+    call is the first operation of a fresh object; 'newbuf' = both."""
+    cname, entry, target, want, prior, val = case[:6]
+    situ = case[6] if len(case) > 6 else "plain"
     ci = CLASSES[cname]
+    if situ in ("buf", "newbuf") and not ci.buffered:
+        situ = "plain" if situ == "buf" else "new"
+    if situ in ("new", "newbuf") and (target != "root" or entry == "ctor" or (want == "list" and entry == "setitem")):
+        situ = "plain"      # (an empty list has no index to assign to)
     d = wm.case_dir()
     reset_class_state()
     try:
         res = new_resource(ci, d)
         path = target_path(ci.kind, target, want)
         doc = base_doc(ci.kind)
+        if situ in ("new", "newbuf"):
+            doc = {} if ci.kind == "dict" else []
+            prior = ABSENT
         cont = doc
         for k in path:
             cont = cont[k]
@@ -178,13 +192,31 @@ def run_case(case):
                 raise Mismatch("rejected", case=_enc_case(case), error=f"{type(e).__name__}: {e}"[:200])
             model = data
         else:
-            res.write(copy.deepcopy(doc))
-            root = res.make(ci)
-            root()  # load the prior state into memory (the interesting case for merges)
+            if situ in ("new", "newbuf"):
+                root = res.make(ci)
+                if entry == "setslice":
+                    key = 0
+            else:
+                res.write(copy.deepcopy(doc))
+                root = res.make(ci)
+                root()  # load the prior state into memory (the interesting case for merges)
+            ctx = None
             try:
+                if situ in ("buf", "newbuf"):
+                    ctx = root.buffered
+                    ctx.__enter__()
                 apply_entry(ci, root, res, entry, path, copy.deepcopy(val), key)
+                if ctx is not None:
+                    c2, ctx = ctx, None
+                    c2.__exit__(None, None, None)
             except Exception as e:  # noqa: BLE001
                 raise Mismatch("rejected", case=_enc_case(case), error=f"{type(e).__name__}: {e}"[:200])
+            finally:
+                if ctx is not None:
+                    try:
+                        ctx.__exit__(None, None, None)
+                    except Exception:  # noqa: BLE001
+                        pass
             model_entry(mcont, entry, val, key)
         fresh = res.make(ci)()
         if not is_plain(fresh):
@@ -284,7 +316,8 @@ def run_shard(spec, seed, tier, active):
         nt = _nt(case)
         acc.case([h64(_enc_case(case))] if nt else (), _enc_case(case) if nt else None,
                  {f"entry={case[1]}": 1, f"target={case[2]}": 1,
-                  "prior=" + ("none" if case[4] is ABSENT else "present"): 1})
+                  "prior=" + ("none" if case[4] is ABSENT else "present"): 1,
+                  "situation=" + (case[6] if len(case) > 6 else "plain"): 1})
         return d
 
     if spec["mode"] == "small":
@@ -304,6 +337,16 @@ def run_shard(spec, seed, tier, active):
             for prior in (1, True, 1.0, 0, False, "", None, [], {}, [0], {"a": 1}):
                 for v in (LEAVES + [[], {}, [1], {"a": True}, [True], [1.0]]):
                     todo.append((ci.name, e, t, w, prior, v))
+        # the same entry points at the root: inside a buffered context, as the first operation on
+        # a resource that does not exist yet, and both (a seeded slice of the values)
+        for (e, t, w) in cs:
+            if t != "root" or e == "ctor":
+                continue
+            for situ in SITUATIONS[1:]:
+                if situ in ("buf", "newbuf") and not ci.buffered:
+                    continue
+                for v in rnd.sample(vals, min(len(vals), 40 if full else 12)):
+                    todo.append((ci.name, e, t, w, ABSENT, v, situ))
         for case in todo:
             d = attempt(case)
             if d is not None:
@@ -330,7 +373,8 @@ def run_shard(spec, seed, tier, active):
             val = draw(dom.values(max_leaves=draw(st.sampled_from([3, 6, 12]))))
         prior = draw(st.one_of(st.just(ABSENT), st.just(ABSENT), dom.values(3),
                                st.sampled_from([1, True, 1.0, 0, False, 0.0, [], {}, None])))
-        case = (ci.name, e, t, w, prior, val)
+        situ = draw(st.sampled_from(["plain", "plain"] + SITUATIONS))
+        case = (ci.name, e, t, w, prior, val) if situ == "plain" else (ci.name, e, t, w, prior, val, situ)
         d = attempt(case)
         if d is not None:
             raise CaseFailure({"property": ID, "engine": "c12", "case": _enc_case(case)}, d)
